@@ -1,8 +1,26 @@
 (* C11 -- property theorems only.  Each is closed by [exact] of a lemma proved
-   in Proofs/C11.v; Print Assumptions beneath each. *)
+   in Proofs/C11.v / Proofs/C11_gen.v; Print Assumptions beneath each.
+
+   [gen_permits] and [gen_principals_allowed] are the definitions the translator
+   (harness/c11/translate.py) regenerated from src/pyramid/authorization.py on
+   THIS run (Gen/Facts_C11.v); [permits] and [principals_allowed] are the
+   hand-written reference model.  The first two theorems say that the two are
+   the same functions; every property theorem is then stated twice, for the
+   reference model and (suffix _generated) literally for the regenerated
+   program. *)
 From Coq Require Import List NArith Bool.
 Import ListNotations.
-Require Import Verif.Lib.Wire Verif.Gen.Facts_C11 Verif.Model.C11 Verif.Proofs.C11.
+Require Import Verif.Lib.Wire Verif.Gen.Facts_C11 Verif.Model.C11 Verif.Proofs.C11 Verif.Proofs.C11_gen.
+
+Theorem C11_generated_permits_is_model : forall L ps p,
+  gen_permits L ps p = permits L ps p.
+Proof. exact gen_permits_is_model. Qed.
+Print Assumptions C11_generated_permits_is_model.
+
+Theorem C11_generated_principals_allowed_is_model : forall L p,
+  gen_principals_allowed L p = principals_allowed L p.
+Proof. exact gen_principals_allowed_is_model. Qed.
+Print Assumptions C11_generated_principals_allowed_is_model.
 
 (* the decision is that of the first matching ACE, context's ACL first, then
    each ancestor's; no match (or no ACL at all) refuses *)
@@ -49,3 +67,43 @@ Print Assumptions C11_allowed_consistent.
 Theorem C11_all_permissions_contains_everything : forall p, perm_in p PAll = true.
 Proof. exact all_permissions_contains_everything. Qed.
 Print Assumptions C11_all_permissions_contains_everything.
+
+(* ---- the same properties, about the program regenerated from the source *)
+Theorem C11_permits_first_match_generated : forall L ps p,
+  granted (gen_permits L ps p) = spec_granted L ps p.
+Proof. exact gen_permits_first_match. Qed.
+Print Assumptions C11_permits_first_match_generated.
+
+Theorem C11_permits_deciding_ace_generated : forall L ps p,
+  match gen_permits L ps p with
+  | Allowed d i | Denied d i =>
+      exists a e, nth_error L d = Some (Some a) /\ nth_error a i = Some e
+                  /\ first_match L ps p = Some e
+                  /\ (act e = Allow <-> granted (gen_permits L ps p) = true)
+  | DefaultDeny => first_match L ps p = None
+  end.
+Proof. exact gen_permits_deciding_ace. Qed.
+Print Assumptions C11_permits_deciding_ace_generated.
+
+Theorem C11_permits_default_deny_generated : forall L ps p,
+  first_match L ps p = None -> gen_permits L ps p = DefaultDeny.
+Proof. exact gen_permits_default_deny. Qed.
+Print Assumptions C11_permits_default_deny_generated.
+
+Theorem C11_no_acl_refused_generated : forall L ps p,
+  Forall (fun o => o = None \/ o = Some []) L -> gen_permits L ps p = DefaultDeny.
+Proof. exact gen_no_acl_refused. Qed.
+Print Assumptions C11_no_acl_refused_generated.
+
+Theorem C11_child_decides_generated : forall child parents ps p e,
+  find (ace_matches ps p) child = Some e ->
+  granted (gen_permits (Some child :: parents) ps p) = decide (Some e).
+Proof. exact gen_child_decides. Qed.
+Print Assumptions C11_child_decides_generated.
+
+Theorem C11_allowed_consistent_generated : forall L p q,
+  wf_lineage L = true ->
+  In q (gen_principals_allowed L p) ->
+  granted (gen_permits L [q; everyone] p) = true.
+Proof. exact gen_allowed_consistent. Qed.
+Print Assumptions C11_allowed_consistent_generated.
